@@ -35,6 +35,10 @@ const (
 	errorTooDeepArray = "too deeply nested array (%d > %d)"
 )
 
+const (
+	errorUnterminatedLine = "line is not terminated by CRLF (%q)"
+)
+
 // ErrEOM is the error returned by Array::Next() when no more message is available.
 var ErrEOM = errors.New("EOM")
 
